@@ -88,7 +88,8 @@ func pathOf[O any](n *node[O]) (init int, ops []O) {
 func replay[S any, O any](sys *System[S, O], init int, ops []O) (S, string) {
 	s := sys.Inits[init]()
 	for i, o := range ops {
-		if msg, _ := sys.Apply(s, o); msg != "" {
+		o := o
+		if msg, _ := guard(func() (string, string) { return sys.Apply(s, o) }); msg != "" {
 			return s, fmt.Sprintf("replay divergence at step %d (%s): a transition that was clean before now reports: %s", i, sys.Label(o), msg)
 		}
 		if sys.Touch != nil {
@@ -104,6 +105,20 @@ func labels[S any, O any](sys *System[S, O], ops []O) []string {
 		out[i] = sys.Label(o)
 	}
 	return out
+}
+
+// guard runs one step of the system and turns a panic of the HARNESS code (model bookkeeping that could not follow
+// what the library did: a container missing where the replayed path had one, an index past a shortened model
+// list) into a violation candidate instead of a crash. On a deterministic, correct library a replayed path never
+// behaves differently from its first execution, so such a panic is a symptom of the code under test; like every
+// candidate it is re-executed five times before it is reported.
+func guard(f func() (string, string)) (msg, sig string) {
+	defer func() {
+		if r := recover(); r != nil {
+			msg, sig = fmt.Sprintf("the harness could not follow the library (the state reached by replaying a recorded path differs from the state in which the operation was enabled): %v", r), "replay-nondeterminism"
+		}
+	}()
+	return f()
 }
 
 // Run explores the system and reports violations into c.
@@ -145,19 +160,36 @@ func Run[S any, O any](c *ev.Ctx, sys *System[S, O]) Result {
 					}
 					n := frontier[i]
 					init, path := pathOf(n)
+					diverged := func(div string) {
+						trace := labels(sys, path)
+						c.Violate(ev.Violation{Sig: sys.Name + "/replay-nondeterminism", Msg: fmt.Sprintf("[%s] replaying %v: %s - the library does not behave the same way on every execution of one operation sequence", sys.Name, trace, div),
+							Witness: map[string]interface{}{"scenario": sys.Name, "init": init, "operations": trace}}, func() string {
+							if _, d := replay(sys, init, path); d != "" {
+								return sys.Name + "/replay-nondeterminism"
+							}
+							return ""
+						})
+					}
 					s0, div := replay(sys, init, path)
 					if div != "" {
-						ev.Harness(c.ID, "%s: %s", sys.Name, div)
+						diverged(div)
+						continue
 					}
-					enabled := sys.Ops(s0)
+					var enabled []O
+					if m, _ := guard(func() (string, string) { enabled = sys.Ops(s0); return "", "" }); m != "" {
+						diverged(m)
+						continue
+					}
 					for _, op := range enabled {
 						s, div := replay(sys, init, path)
 						if div != "" {
-							ev.Harness(c.ID, "%s: %s", sys.Name, div)
+							diverged(div)
+							break
 						}
-						msg, sig := sys.Apply(s, op)
+						op := op
+						msg, sig := guard(func() (string, string) { return sys.Apply(s, op) })
 						if msg == "" {
-							msg, sig = sys.Check(s)
+							msg, sig = guard(func() (string, string) { return sys.Check(s) })
 						}
 						c.AddTrans(1)
 						if msg != "" {
@@ -168,13 +200,14 @@ func Run[S any, O any](c *ev.Ctx, sys *System[S, O]) Result {
 								Witness: map[string]interface{}{"scenario": sys.Name, "init": init, "operations": trace}}, func() string {
 								s := sys.Inits[init]()
 								for j, o := range full {
-									m, sg := sys.Apply(s, o)
+									o := o
+									m, sg := guard(func() (string, string) { return sys.Apply(s, o) })
 									if sys.Touch != nil && j < len(full)-1 {
 										sys.Touch(s)
 									}
 									if j == len(full)-1 {
 										if m == "" {
-											m, sg = sys.Check(s)
+											m, sg = guard(func() (string, string) { return sys.Check(s) })
 										}
 										if m == "" {
 											return ""
